@@ -53,7 +53,14 @@ func VerifH_C16_orientation() {
 	}
 	var all []piece
 	for ri, r := range rings {
-		np := vRange("pieces", 1, vParam("maxPieces", 3))
+		maxP := vParam("maxPieces", 3)
+		if r.outer && vParam("outerAllEdges", 0) == 1 {
+			maxP = len(r.pts)
+		}
+		np := vRange("pieces", 1, maxP)
+		if r.outer && vParam("outerAllEdges", 0) == 1 {
+			np = len(r.pts) // every edge is its own way
+		}
 		var cuts []int
 		prev := -1
 		if np > 1 {
